@@ -146,7 +146,7 @@ def run(tier):
         import json as _json
         spec = runner or _runner_spec()
         rb = common.build_runner(spec['name'], spec['deps'], lock=True, extra_files=spec['extra_files'], extra_deps=spec['extra_deps'])
-        count = 8 if tier == 'quick' else 150
+        count = 40 if tier == 'quick' else 400
         rc, out, err, wall = common.run_cmd([rb, 'diag', str(common.seed()), str(count)], timeout=1200)
         diag_info = _json.loads(out.strip().split('\n')[-1])
         diag_info['wall_s'] = round(wall, 1)
